@@ -161,7 +161,7 @@ Proof.
   intros c r Hb Hc Hh. unfold base_shoot, clean. rewrite Hb. cbn [negb].
   assert (H2 : bc_http2 c && negb (rs_h2 r) = false).
   { destruct (bc_http2 c); [rewrite Hh by reflexivity|]; reflexivity. }
-  destruct (bc_connect c) as [[|]|]; try congruence; cbn [negb]; rewrite H2;
+  destruct (bc_connect c) as [[|]|]; try congruence; cbn [negb]; rewrite H2; cbn [andb];
     destruct (conn_ok (rs_conn r)); cbn [negb andb];
     (eexists; split; [reflexivity|]); cbn [sm_err sm_code];
     (repeat split; intro H; try discriminate; try reflexivity;
@@ -175,16 +175,15 @@ Proof.
   destruct (bc_connect c) as [[|]|]; try congruence; reflexivity.
 Qed.
 
-(* the only panic leaves: gun not bound, or the documented-fatal HTTP/2 condition *)
+(* the only panic leaves: gun not bound, or the documented-fatal HTTP/2 condition (target reached, no HTTP/2) *)
 Lemma base_shoot_panic_only : forall c inv r l, base_shoot c inv r = ShotPanic l ->
-  bc_bound c = false \/ (bc_http2 c = true /\ rs_h2 r = false).
+  bc_bound c = false \/ (bc_http2 c = true /\ rs_h2 r = false /\ conn_ok (rs_conn r) = true).
 Proof.
   intros c inv r l. unfold base_shoot. destruct (bc_bound c); [|left; reflexivity]. cbn [negb].
   destruct (bc_connect c) as [[|]|]; try discriminate;
     (destruct inv; [discriminate|]);
-    (destruct (bc_http2 c) eqn:E2; destruct (rs_h2 r) eqn:E3; cbn [andb negb];
-     try (intros _; right; split; reflexivity));
-    destruct (conn_ok (rs_conn r)); discriminate.
+    (destruct (bc_http2 c) eqn:E2; destruct (rs_h2 r) eqn:E3; destruct (conn_ok (rs_conn r)) eqn:E4; cbn [andb negb];
+     try discriminate; intros _; right; repeat split; reflexivity).
 Qed.
 
 (* ---------- ScenarioGun ---------- *)
